@@ -149,6 +149,7 @@ theorem evalLit_spec {cells : List (List Int)} {lit : Lit} {v : Val} {cells' : L
     (h : evalLit cells lit = (v, cells')) :
     (∃ extra, cells' = cells ++ extra) ∧ (∀ c : Nat, c ∈ v.cells → cells.length ≤ c ∧ c < cells'.length) := by
   cases lit with
+  | none => simp [evalLit] at h; obtain ⟨rfl, rfl⟩ := h; exact ⟨⟨[], by simp⟩, by simp [Val.cells]⟩
   | int n => simp [evalLit] at h; obtain ⟨rfl, rfl⟩ := h; exact ⟨⟨[], by simp⟩, by simp [Val.cells]⟩
   | list l =>
     simp [evalLit] at h; obtain ⟨rfl, rfl⟩ := h
@@ -158,6 +159,7 @@ theorem deepcopyVal_spec {cells : List (List Int)} {v0 v : Val} {cells' : List (
     (h : deepcopyVal cells v0 = (v, cells')) :
     (∃ extra, cells' = cells ++ extra) ∧ (∀ c : Nat, c ∈ v.cells → cells.length ≤ c ∧ c < cells'.length) := by
   cases v0 with
+  | none => simp [deepcopyVal] at h; obtain ⟨rfl, rfl⟩ := h; exact ⟨⟨[], by simp⟩, by simp [Val.cells]⟩
   | int n => simp [deepcopyVal] at h; obtain ⟨rfl, rfl⟩ := h; exact ⟨⟨[], by simp⟩, by simp [Val.cells]⟩
   | ref c0 =>
     simp [deepcopyVal] at h; obtain ⟨rfl, rfl⟩ := h
@@ -194,6 +196,7 @@ theorem validate_spec {cells cells' : List (List Int)} {p : PObj} {v : Val}
   cases hk : p.kind <;> simp only [hk] at h
   · simp at h; subst h; simp
   · cases v with
+    | none => simp at h
     | ref c => simp at h
     | int n =>
       simp only at h
@@ -209,6 +212,7 @@ theorem validate_spec {cells cells' : List (List Int)} {p : PObj} {v : Val}
           · simp at h
           · simp at h; subst h; simp
   · cases v with
+    | none => simp at h
     | ref c => simp at h
     | int n =>
       cases ho : aget p.mslots Slot.objects with
@@ -968,6 +972,7 @@ theorem doMutVal_cells (w : World) (t : Target) (x : Name) (n : Int) :
   split
   · exact ⟨w.cells, rfl, rfl⟩
   · exact ⟨w.cells, rfl, rfl⟩
+  · exact ⟨w.cells, rfl, rfl⟩
   · exact ⟨_, rfl, by simp⟩
 
 
@@ -1212,6 +1217,7 @@ theorem validate_safe {cells cells' : List (List Int)} {p : PObj} {v : Val}
   cases hk : p.kind <;> simp only [hk] at h
   · simp at h; exact h.symm
   · cases v with
+    | none => simp at h
     | ref c => simp at h
     | int n =>
       simp only at h
@@ -1227,6 +1233,7 @@ theorem validate_safe {cells cells' : List (List Int)} {p : PObj} {v : Val}
           · simp at h
           · simp at h; exact h.symm
   · cases v with
+    | none => simp at h
     | ref c => simp at h
     | int n =>
       cases ho : aget p.mslots Slot.objects with
@@ -1270,6 +1277,7 @@ theorem setupKwargs_frame (w : World) (k : ClsId) (hb : ∀ c : Nat, heldByClass
           have hsafe := hs (x, lit) (by simp) k' p n c hr hk hcos
           have hlit : lit = .int n := by
             cases lit with
+            | none => simp [evalLit] at hev; rw [← hev.1] at hvn; simp at hvn
             | int m => simp [evalLit] at hev; rw [← hev.1] at hvn; simp at hvn; rw [hvn]
             | list l => simp [evalLit] at hev; rw [← hev.1] at hvn; simp at hvn
           have hc : c < w.cells.length :=
@@ -1286,6 +1294,7 @@ else `constant` → the very object that is the class default; else nothing is s
 def InitOK (w : World) (cells' : List (List Int)) (P : PObj) (ov0 ov : Option Val) : Prop :=
   if P.instantiate then
     match P.default with
+    | .none => ov = some .none
     | .int n => ov = some (.int n)
     | .ref d => ∃ c' : Nat, ov = some (.ref c') ∧ w.cells.length ≤ c' ∧ c' < cells'.length ∧
         deref cells' c' = deref w.cells d
@@ -1298,6 +1307,7 @@ theorem InitOK.mono {w : World} {cells' extra : List (List Int)} {P : PObj} {ov0
   split
   · rename_i hi; simp only [hi, if_true] at h
     split
+    · rename_i hd; simp only [hd] at h; exact h
     · rename_i n hd; simp only [hd] at h; exact h
     · rename_i d hd; simp only [hd] at h
       obtain ⟨c', h1, h2, h3, h4⟩ := h
@@ -1338,6 +1348,12 @@ theorem setupValues_step (w : World) (k : ClsId) (x0 : Name) (xs : List Name) (e
       obtain ⟨v, cells1⟩ := r
       simp only at h
       cases hdef : p.default with
+      | none =>
+        simp [deepcopyVal, hdef] at hd; obtain ⟨rfl, rfl⟩ := hd
+        refine ⟨_, e, h, fun y hy => aget_aset_ne _ _ (fun e => hy e.symm), ?_⟩
+        intro k' P hr' _
+        rw [hr] at hr'; simp at hr'; obtain ⟨_, rfl⟩ := hr'
+        exact ⟨by simp [InitOK, hi, hdef, aget_aset_self], by simp [hi]⟩
       | int n =>
         simp [deepcopyVal, hdef] at hd; obtain ⟨rfl, rfl⟩ := hd
         refine ⟨_, e, h, fun y hy => aget_aset_ne _ _ (fun e => hy e.symm), ?_⟩
@@ -1492,6 +1508,7 @@ theorem doMkInst_values {w : World} {k : ClsId} {kwargs : List (Name × Lit)}
         split
         · rename_i hi; simp only [hi, if_true] at hinit
           split
+          · rename_i hd; simp only [hd] at hinit; exact hinit
           · rename_i n hd; simp only [hd] at hinit; exact hinit
           · rename_i d hd; simp only [hd] at hinit
             obtain ⟨c', h1, h2, h3, h4⟩ := hinit
@@ -1524,6 +1541,7 @@ theorem doMutVal_frame (w : World) (t : Target) (x : Name) (n : Int) :
     ∀ c : Nat, w.read t x ≠ some (.ref c) → deref (doMutVal w t x n).1.cells c = deref w.cells c := by
   unfold doMutVal
   split
+  · exact ⟨rfl, rfl, rfl, fun _ _ => rfl⟩
   · exact ⟨rfl, rfl, rfl, fun _ _ => rfl⟩
   · exact ⟨rfl, rfl, rfl, fun _ _ => rfl⟩
   · rename_i c0 hr
